@@ -322,6 +322,51 @@ fn step_block(prop: &'static str, tier: Tier, seed: u64, s: usize, b: u64) -> St
     }
 }
 
+/// Run `oq3verif derive-probe` with a deadline between probes; returns the probe on which it
+/// crashed or stalled, if any.
+fn watched_derivation() -> Option<String> {
+    let mut child = Command::new(exe()).arg("derive-probe").stdin(Stdio::null()).stdout(Stdio::piped()).stderr(Stdio::null()).spawn().ok()?;
+    let stdout = child.stdout.take()?;
+    let (tx, rx) = channel::<Option<String>>();
+    std::thread::spawn(move || {
+        for line in BufReader::new(stdout).lines() {
+            match line {
+                Ok(l) => {
+                    if tx.send(Some(l)).is_err() {
+                        return;
+                    }
+                }
+                Err(_) => break,
+            }
+        }
+        let _ = tx.send(None);
+    });
+    let mut last: Option<String> = None;
+    let mut done = false;
+    loop {
+        match rx.recv_timeout(Duration::from_secs(20)) {
+            Ok(Some(l)) => {
+                if let Some(p) = l.strip_prefix("PROBE ") {
+                    last = serde_json::from_str::<String>(p).ok();
+                } else if l == "DONE" {
+                    done = true;
+                }
+            }
+            Ok(None) => break,
+            Err(_) => {
+                let _ = child.kill();
+                break;
+            }
+        }
+    }
+    let _ = child.wait();
+    if done {
+        None
+    } else {
+        last
+    }
+}
+
 fn case_witness(case: &Value) -> String {
     if let Some(t) = case["text"].as_str() {
         return t.to_string();
@@ -431,11 +476,34 @@ pub fn run(prop: &'static str, tier: Tier, seed: u64) -> i32 {
             return 2;
         }
     };
+    // The derivation of the token alphabet runs the subject in this very process. A panic is
+    // caught there, but a hang or an abort would take the driver with it: the derivation is
+    // therefore tried first in a watched subprocess that announces every probe; if that dies
+    // or stalls, the last probe is handed to this process and to the workers as the witness.
+    if std::env::var(crate::space::etok::WITNESS_ENV).is_err() {
+        if let Some(w) = watched_derivation() {
+            std::env::set_var(crate::space::etok::WITNESS_ENV, w);
+        }
+    }
     // the self-checks and the derivation of the token alphabet run the subject: its panics are
     // caught there (quietly) and become witnesses; the driver's own panics stay loud
     install_panic_hook();
+    // safety net: nothing below may keep the driver busy for long; if the subject hangs inside
+    // the construction of the spaces, give up as a machinery error instead of hanging forever
+    let constructed = std::sync::Arc::new(std::sync::atomic::AtomicBool::new(false));
+    {
+        let c = constructed.clone();
+        std::thread::spawn(move || {
+            std::thread::sleep(Duration::from_secs(600));
+            if !c.load(std::sync::atomic::Ordering::Relaxed) {
+                eprintln!("machinery error: the construction of the spaces did not finish within 600 s (the subject hangs on an input used to build them)");
+                std::process::exit(2);
+            }
+        });
+    }
     let self_check = props::self_check(prop);
     let spaces = props::spaces(prop, tier, seed);
+    constructed.store(true, std::sync::atomic::Ordering::Relaxed);
     let _ = std::panic::take_hook();
     if let Err(e) = self_check {
         eprintln!("machinery error: self-check failed: {}", e);
@@ -568,6 +636,17 @@ pub fn run(prop: &'static str, tier: Tier, seed: u64) -> i32 {
             Ok(Msg::Stepped(s, b, r)) => {
                 stepping -= 1;
                 if !r.incidents.is_empty() {
+                    // crashes or hangs confirmed in six blocks overall: the run is a failure,
+                    // nothing more is learnt by grinding through every space
+                    let total_dead: usize = dead_blocks.values().sum::<usize>() + 1;
+                    if total_dead >= 6 && !jobs.is_empty() {
+                        capped = true;
+                        agg.incomplete_blocks.extend(jobs.iter().cloned());
+                        for j in jobs.iter() {
+                            condemned.insert(j.0);
+                        }
+                        jobs.clear();
+                    }
                     let dead = dead_blocks.entry(s).or_insert(0usize);
                     *dead += 1;
                     if *dead >= MAX_DEAD_BLOCKS_PER_SPACE && condemned.insert(s) {
